@@ -19,7 +19,7 @@
 EXTENDS Selection, TLC
 
 CONSTANTS Kind,      \* "mps" | "sn"
-          Smp,       \* "asis" | "ref" | "skipflag" | "skipver"   sampler semantics (Selection!Impl)
+          Smp,       \* "asis" | "ref" | "skipflag" | "skipver" | "trainonly"   sampler semantics (Selection!Impl)
           SumSamples, ExpSamples,   \* BOOLEAN: pinned summary() / export() side effects (Selection!Impl)
           OptImpl,   \* "pinned" | "fixed"  update_softmax_options semantics (MPS only)
           Ctor,      \* "bare" | "model"
@@ -27,7 +27,9 @@ CONSTANTS Kind,      \* "mps" | "sn"
           Chans,     \* channels (1 = per-layer quantiser / combiner)
           Temps,     \* temperature classes, e.g. {"lo","hi"}
           Acts,      \* enabled actions, subset of
-                     \* {"temp","hard","gumbel","disable","mode","fwd","alpha","load","summary","export"}
+                     \* {"temp","hard","gumbel","disable","mode","fwd","alpha","load","freeze","summary","export"}
+          Grads,     \* grad modes of the forward passes, subset of BOOLEAN (FALSE = under torch.no_grad())
+          SelHows,   \* calls that freeze / unfreeze alpha, subset of Selection!SelHowsAll ({}: alpha stays trainable)
           Writes,    \* enabled ways of writing alpha, subset of Selection!WriteKinds
           Ckpts,     \* kinds of checkpoints that are loaded, subset of Selection!CkptKinds
           Moves,     \* "all": a write may install any ranking matrix; "gen": only the neighbours of the current
@@ -48,13 +50,16 @@ Neighbours(rk) == {[rk EXCEPT ![c] = Rot(rk[c])] : c \in 1..Chans} \cup {[rk EXC
 Targets(rk)    == IF Moves = "all" THEN RankMatrices ELSE Neighbours(rk)
 
 Init ==
-    \E r0 \in Rankings(N), rk \in RankMatrices, hard \in BOOLEAN, gum \in BOOLEAN, dis \in BOOLEAN, t \in Temps :
+    \E r0 \in Rankings(N), rk \in RankMatrices, hard \in BOOLEAN, gum \in BOOLEAN, dis \in BOOLEAN, t \in Temps,
+       sel \in BOOLEAN :
         /\ (Kind = "sn" => ~dis)
+        \* a SuperNetCombiner is built with frozen coefficients (warm-up); everything else with trainable ones
+        /\ (sel \/ (Kind = "sn" /\ Ctor = "bare" /\ SelHows # {}))
         /\ IF Kind = "sn" \/ InitAlpha = "ctor"
            THEN /\ rk = [c \in 1..Chans |-> r0]
-                /\ st = InitState(Kind, IM, OptImpl, Ctor, rk, hard, gum, dis, t)
+                /\ st = InitState(Kind, IM, OptImpl, Ctor, rk, hard, gum, dis, t, sel)
            ELSE /\ r0 = Identity      \* quantiser built with ascending precisions, then alpha := rk
-                /\ LET s == InitState(Kind, IM, OptImpl, Ctor, [c \in 1..Chans |-> r0], hard, gum, dis, t)
+                /\ LET s == InitState(Kind, IM, OptImpl, Ctor, [c \in 1..Chans |-> r0], hard, gum, dis, t, sel)
                    IN  st = IF rk = s.rank THEN s ELSE DoSetAlpha(IM, s, rk, "copy")
 
 UpdTemp(t)    == "temp" \in Acts /\ st' = DoOption(Kind, IM, OptImpl, st, "temp", t)
@@ -63,8 +68,10 @@ UpdGumbel(b)  == "gumbel" \in Acts /\ Kind = "mps" /\ st' = DoOption(Kind, IM, O
 UpdDisable(b) == "disable" \in Acts /\ Kind = "mps" /\ st' = DoOption(Kind, IM, OptImpl, st, "disable", b)
 ModeTrain     == "mode" \in Acts /\ st' = DoMode(st, TRUE)
 ModeEval      == "mode" \in Acts /\ st' = DoMode(st, FALSE)
-Forward(g)    == "fwd" \in Acts /\ st' = DoForward(Kind, IM, st, g)
+Forward(g)    == "fwd" \in Acts /\ g \in Grads /\ st' = DoForward(Kind, IM, st, g)
+SetSel(how)   == "freeze" \in Acts /\ how \in SelHows /\ st' = DoSetSel(st, how)
 SetAlpha(rk, wk) == "alpha" \in Acts /\ wk \in Writes /\ rk # st.rank /\ rk \in Targets(st.rank)
+                    /\ (wk = "optim" => st.sel)          \* an optimizer only moves trainable tensors
                     /\ st' = DoSetAlpha(IM, st, rk, wk)
 \* the checkpoint holds coefficients rk (possibly the current ones), a theta_alpha sampled for them, temperature t
 Load(rk, ck, t)  == "load" \in Acts /\ ck \in Ckpts /\ rk \in Targets(st.rank) \cup {st.rank}
@@ -76,6 +83,7 @@ Next ==
     \/ \E t \in Temps : UpdTemp(t)
     \/ \E b \in BOOLEAN : UpdHard(b) \/ UpdGumbel(b) \/ UpdDisable(b) \/ Forward(b)
     \/ ModeTrain \/ ModeEval \/ Summarize \/ Export
+    \/ \E how \in SelHowsAll : SetSel(how)
     \* (constant bounds, so that TLC labels every edge with the action and its arguments)
     \/ \E rk \in RankMatrices, wk \in WriteKinds : SetAlpha(rk, wk)
     \/ \E rk \in RankMatrices, ck \in CkptKinds, t \in Temps : Load(rk, ck, t)
@@ -90,9 +98,12 @@ TypeOK ==
     /\ st.training \in BOOLEAN /\ st.temp \in Temps
     /\ \A c \in 1..Chans : st.theta[c] \in Classes(N)
     /\ st.fresh \in BOOLEAN /\ st.sampled \in BOOLEAN /\ st.lastinf \in BOOLEAN /\ st.skip \in BOOLEAN
+    /\ st.sel \in BOOLEAN /\ (SelHows = {} => st.sel)
     /\ (Kind = "sn" => st.sampler # "none")
     /\ (Smp \notin Skips => ~st.skip)
 
+\* the sampling step depends on the coefficients, the options and the mode only
+ForwardSamples == \A c \in 1..Chans : SampleOK(Kind, IM, st, c)
 \* C10, first sentence: what a sampling step produced is a probability vector (per channel)
 SampledIsProb == \A c \in 1..Chans : ProbOK(st, c)
 \* C10: in eval mode, and in training with hard non-Gumbel sampling, theta is the one-hot at argmax(alpha)
